@@ -512,14 +512,17 @@ class CheckedCoverageInstrumentation(python3_11.CheckedCoverageInstrumentation):
                     )
                 )
             case "BINARY_SLICE":
-                # Instrumentation mostly after the original instruction
-                node.basic_block[override(instr_index)] = (
-                    self.instructions_generator.generate_overriding_instructions(
-                        InstrumentationSetupAction.COPY_THIRD_SHIFT_DOWN_THREE,
-                        instr,
+                # Instrumentation before the original instruction (like BINARY_SUBSCR):
+                # the instruction leaves its result on the stack, so nothing may be
+                # removed from the stack after it.
+                node.basic_block[before(instr_index)] = (
+                    cf.ArtificialInstr("COPY", 3, lineno=instr.lineno),
+                    *self.instructions_generator.generate_instructions(
+                        InstrumentationSetupAction.COPY_FIRST,
                         method_call,
                         instr.lineno,
-                    )
+                    ),
+                    cf.ArtificialInstr("POP_TOP", lineno=instr.lineno),
                 )
 
     def visit_deref_access(  # noqa: D102, PLR0917
